@@ -409,12 +409,46 @@ class SlidingWindowSpec(Spec):
         return None
 
 
+class InfoWeightUnsortedSpec(InfoWeightSpec):
+    """input handed over as CSC with unsorted in-column indices (the kernel needs sorted ones)"""
+    name = "info_weight_csc_unsorted"
+
+    def configs(self, tier):
+        return [{"prior_strength": 1.0, "approx_prior": False}]
+
+    def pack(self, items, cfg):
+        M = np.array(items, dtype=np.float64).reshape(len(items), self.ncols)
+        csc = sp.csc_matrix(M)
+        ind, dat = csc.indices.copy(), csc.data.copy()
+        for j in range(M.shape[1]):
+            a, b = csc.indptr[j], csc.indptr[j + 1]
+            ind[a:b] = ind[a:b][::-1]
+            dat[a:b] = dat[a:b][::-1]
+        out = sp.csc_matrix((dat, ind, csc.indptr.copy()), shape=M.shape)
+        out.has_sorted_indices = False
+        return out, {}
+
+
+class RowDenoiseExplicitZeroSpec(RowDenoiseSpec):
+    """input CSR that stores its zeros explicitly"""
+    name = "row_denoise_explicit_zeros"
+
+    def configs(self, tier):
+        return [{"normalize": False}]
+
+    def pack(self, items, cfg):
+        M = np.array(items, dtype=np.float64).reshape(len(items), self.ncols)
+        full = sp.csr_matrix((M.flatten(), np.tile(np.arange(M.shape[1]), M.shape[0]), np.arange(0, M.size + 1, M.shape[1])), shape=M.shape)
+        return full, {}
+
+
 ROW_WISE = [NgramSpec(), SkipgramSpec(), LZSpec(), BPESpec(), HistogramSpec(), KDESpec(), DistributionSpec(),
             WassersteinSpec(), WassersteinLilSpec(), SinkhornSpec(), ApproxWassersteinSpec(), InfoWeightSpec(),
             RowDenoiseSpec(), CountCompressionSpec(), SlidingWindowSpec()]
 COMPILED_ONLY = [LZHashedSpec()]
 EXTRA = [SinkhornFarSpec()]
-BY_NAME = {s.name: s for s in ROW_WISE + COMPILED_ONLY + EXTRA}
+SIDE_EFFECT = [InfoWeightUnsortedSpec(), RowDenoiseExplicitZeroSpec()]
+BY_NAME = {s.name: s for s in ROW_WISE + COMPILED_ONLY + EXTRA + SIDE_EFFECT}
 
 
 def fit(spec, est, items, cfg):
